@@ -780,6 +780,9 @@ class NpyArray:
         # Reset length
         self.shape = (length, ) + self.shape[1:]
         self._prepare_header_data()
+        # Write the header first so that the file stays loadable if the process dies
+        # between the two steps (the header must never announce more data than exists)
+        self._write_header_data()
 
         self.fs.seek(self.header_length + self.size * self.itemsize)
         self.fs.truncate()
